@@ -90,7 +90,8 @@ def tiers(ctx):
                 FldVals=S("p1", "rv1", "rf1", "rf2"), NoiseOpts=NOISE)
     if not q:
         # ... and {{this}} of a nested loop over scalars mentioning a field of the enclosing item
-        refs.update(SubS=S("sub"), LoopLeafs=S("this"), ThisVals=S("p1", "rv1", "rf1"))
+        # (a variable's placeholder in an item value is covered in every position by the wide and loops layers)
+        refs.update(SubS=S("sub"), LoopLeafs=S("this"), ThisVals=S("p1", "rf1"), FldVals=S("p1", "rf1", "rf2"))
     loops = dict(Lits=S(), Conds=S(), QFlds=S(), Blocks=S(), Imgs=S(), CondOpens=S(), AllowExt=False, CondVals=S("bT"))
     layers = {
         # every name, literal and value class in every position of the smallest templates
